@@ -271,6 +271,14 @@ def m_slice_contains_byte(it, a, ty, callee):
     return b_or(*[it.veq(p, b) for p in x])
 
 
+def m_concat(it, a, ty, callee):
+    parts = it.load(a[0]).fields
+    out = []
+    for p in parts:
+        out.extend(as_bytes(it, p))
+    return Seq(out, 'vec')
+
+
 def m_to_vec(it, a, ty, callee):
     return Seq(as_bytes(it, a[0]), 'vec')
 
@@ -295,6 +303,7 @@ def install(it):
     A = it.add_model
     A(r'(?:std|core)::slice::<impl \[u8\]>::to_vec', m_to_vec)
     A(r'bytes::Bytes::to_vec', m_to_vec)
+    A(r'(?:std|core)::slice::<impl \[&\[u8\]\]>::concat::<u8>', m_concat)
     A(r'<bytes::(Bytes|BytesMut) as std::convert::Into<std::vec::Vec<u8>>>::into', m_to_vec)
     A(r'<std::vec::Vec<u8> as std::convert::From<bytes::(Bytes|BytesMut)>>::from', m_to_vec)
     A(r'bytes::Bytes::slice::<.*>', m_bytes_slice)
